@@ -106,7 +106,7 @@ type c06XRead struct {
 	Fin      bool   `json:"fin"`
 	Deleting bool   `json:"deleting"`
 	Status   bool   `json:"status"`
-	Gen      int    `json:"gen"` // status.observed
+	Gen      int    `json:"gen"`      // status.observed
 	AbsAfter int    `json:"absAfter"` // stale reads: how often the name was absent between the served state and the stored one
 }
 
@@ -116,9 +116,9 @@ type c06Rec struct {
 	Faults []c06Fault `json:"faults"`
 	Env    []c06Env   `json:"env"`
 	// oracle, recorded from the real run
-	Read  c06Read  `json:"read"`
-	Up    string   `json:"up"`    // managed-fields upgrade patch: "" (none issued / not reached) | "ok" | "invalid"
-	Names []string `json:"names"` // name oracle: the names the generator drew during this reconcile, in order
+	Read   c06Read    `json:"read"`
+	Up     string     `json:"up"`     // managed-fields upgrade patch: "" (none issued / not reached) | "ok" | "invalid"
+	Names  []string   `json:"names"`  // name oracle: the names the generator drew during this reconcile, in order
 	XReads []c06XRead `json:"xreads"` // what each XR read of this reconcile returned, in order
 }
 
@@ -685,6 +685,17 @@ func c06Gen(r *Rng, tier string) c06Scn {
 			s.Cands = append(s.Cands, fmt.Sprintf("c-%d", i+1))
 		}
 	}
+	exhaust := r.Chance(1, 25)
+	if exhaust {
+		// malformed-ish stream: every suffix the generator draws is taken (more than its 10 tries),
+		// or the oracle runs dry immediately
+		s.Cands = nil
+		if r.Bool() {
+			for i := 0; i < 12; i++ {
+				s.Cands = append(s.Cands, Pick(r, c06SeedNames))
+			}
+		}
+	}
 	// the claim
 	switch r.Intn(10) {
 	case 0, 1, 2, 3: // brand new claim
@@ -697,7 +708,7 @@ func c06Gen(r *Rng, tier string) c06Scn {
 	s.Claim.Foreground = r.Chance(1, 4)
 	// XRs: the referenced one (ours, unbound, foreign or missing) and bystanders
 	for _, n := range c06SeedNames {
-		if !r.Chance(2, 3) {
+		if !exhaust && !r.Chance(2, 3) {
 			continue
 		}
 		var ref string
